@@ -50,12 +50,18 @@ class C02(C01):
             n = rng.choice([0, 1, 511, 512, 513, 1024, 1500])
             options = [("timeout", str(tmo_s))] if rng.random() < 0.5 else []
             dflt = tmo_s if not options else rng.choice([1, 2, 5])
+            max_tmo = 30
+            if rng.random() < 0.25:
+                # an interval above the server's limit is not accepted (and not announced): the default one applies
+                max_tmo = rng.choice([m for m in (1, 2, 5) if m >= tmo_s])
+                options = [("timeout", str(rng.choice([max_tmo + 1, 20, 255])))]
+                dflt = tmo_s
             t = 0
             ev = []
             for _k in range(rng.randrange(0, 12)):
                 t += rng.choice(T.time_steps(tm) + [0, 0, 3])
                 ev.append((t, 0 if rng.random() < 0.8 else rng.choice([1, 2, 3, 4, 5, 6]), rng.choice(T.PACKET_ALPHABET)[1]))
-            yield T.mk_case(bytes(i % 251 for i in range(n)), [], options=options, default_tmo=dflt,
+            yield T.mk_case(bytes(i % 251 for i in range(n)), [], options=options, default_tmo=dflt, max_tmo=max_tmo,
                             retries=retries, events=ev)
         # handling time: taking a datagram off the socket costs `proc` ticks, so a queue of ignored datagrams
         # (stale ACKs, foreign senders) can still be non-empty when the deadline of the try passes (D20)
